@@ -128,6 +128,107 @@ def select_replay(ctx, binp, cases, name):
     return res
 
 
+HO_NODE = dict(nval=3, batch=3, init=dict(pcT=2, certT=2, w=[1, 1, 1], gens=[1, 2, 3]), choices=[], now=0, network=False)
+
+def handover(ctx, binp=None, only=None):
+    """spec/Handover.tla: the operator interface of block generation (setKeys / getStatus / setStatus / updateStatus of
+    pkg/engine/endpoint + the generator's persisted info) on two nodes.  TLC: NoContradiction for every behaviour in which
+    the operator follows the protocol (exhaustive, small bounds), a control without the protocol (contradiction reachable)
+    and a reachability control (the validator does generate on two nodes).  Binding: TLC behaviours (all hand-overs of the
+    focus configuration + random ones) drive two real nodes with the real endpoint; trace/HandoverTrace.tla validates every
+    answer, generated header and the generator's own stored info."""
+    quick = ctx.tier == "quick"
+    binp = binp or ctx.go_build("./cmd/c15")
+    stats = {}
+    if only is None:
+        r = ctx.tlc("MCHandover", c01.write_cfg(ctx, "ho_exh", c01.cfg_text("Handover_exh", MaxSteps=9 if quick else 10)), workers=12, timeout=1800)
+        if r["violation"]:
+            raise Inconclusive("Handover.tla violates NoContradiction / InfoCoversSigned / AtMostOneEnabled at spec level: %s" % r["outpath"])
+        stats["exhaustive_states"] = r["distinct"]
+        rc = ctx.tlc("MCHandover", "Handover_control", workers=8, timeout=600, check=False)
+        rr = ctx.tlc("MCHandover", "Handover_reach", workers=8, timeout=900, check=False)
+        if not rc["violation"] or not rr["violation"]:
+            raise Inconclusive("Handover.tla controls: contradiction without the protocol reachable=%s, generation on two nodes reachable=%s: the model is vacuous" % (rc["violation"], rr["violation"]))
+        ctx.states -= rc["distinct"] + rr["distinct"]; ctx.transitions -= rc["generated"] + rr["generated"]
+        rf = ctx.tlc("MCHandover", c01.write_cfg(ctx, "ho_focus", c01.cfg_text("Handover_focus", DumpEvery=60 if quick else 6)), workers=12, timeout=1800)
+        if rf["violation"]:
+            raise Inconclusive("Handover.tla (focus) violates an invariant at spec level: %s" % rf["outpath"])
+        rs = ctx.tlc("MCHandover", "Handover_sim", workers=1, timeout=900, simulate=40 if quick else 400, depth=24, seed=ctx.seed + 3)
+        if rs["violation"]:
+            raise Inconclusive("Handover.tla (simulation) violates an invariant at spec level: %s" % rs["outpath"])
+        prelude = [dict(op="setkeys", n=1, type="plain"), dict(op="setkeys", n=2, type="plain")]
+        scripts = []
+        seen = set()
+        cap_f, cap_s = (150, 150) if quick else (1500, 1500)
+        for out, pre, cap in ((rf["out"], prelude, cap_f), (rs["out"], [], cap_s)):
+            n = 0
+            for d in ctx.dumps(out):
+                k = json.dumps(d["script"], sort_keys=True)
+                if k in seen or n >= cap:
+                    continue
+                seen.add(k); n += 1
+                scripts.append(dict(script=pre + d["script"], followed=d["followed"]))
+    else:
+        scripts = [only]
+    sf = ctx.path("ho_scripts.ndjson")
+    with open(sf, "w") as fh:
+        for d in scripts:
+            fh.write(json.dumps(d) + "\n")
+    cf = ctx.path("ho_cfg.json"); json.dump(dict(node=HO_NODE, own=[]), open(cf, "w"))
+    tf = ctx.path("ho_trace.ndjson"); of = ctx.path("ho_res.json")
+    p = ctx.run([binp, "handover", sf, cf, tf, of], timeout=2400)
+    if not os.path.exists(of):
+        raise Inconclusive("c15 handover harness failed (rc=%d): %s" % (p.returncode, p.stderr[-1500:]))
+    res = json.load(open(of))
+    if res.get("harness_errors"):
+        raise Inconclusive("c15 handover harness error: %s" % res["harness_errors"][:2])
+    for v in res.get("violations") or []:
+        ctx.violation(v["key"], v["what"], v.get("replay"))
+    lines = open(tf).read().splitlines()
+    t = ctx.tlc("HandoverTrace", "HandoverTrace", workers=1, timeout=1800, files={"trace.ndjson": tf}, check=False)
+    evs = [json.loads(l) for l in lines]
+    def script_of(ln):
+        i = ln - 1
+        while i >= 0 and evs[i]["ev"] != "reset":
+            i -= 1
+        sc = scripts[evs[i]["script"]]
+        e = evs[ln - 1]
+        return dict(mode="handover", script=sc["script"][:e.get("step", len(sc["script"]) - 1) + 1], followed=sc["followed"])
+    for ln, tag, detail in re.findall(r'<<"MISMATCH", (\d+), "([a-z-]+)", "(.*)">>', t["out"]):
+        e = evs[int(ln) - 1]
+        ctx.violation("handover:" + tag, "node %s, step %s (%s): the real node answers / stores %s; Handover.tla: %s" % (
+            e.get("n"), e.get("step"), e["ev"], json.dumps({k: e[k] for k in e if k in ("res", "hdr", "info", "stored", "en", "present", "enabled", "strays", "haskeys", "listed", "forged", "tip", "newtip")})[:400],
+            detail.replace("\\", "")[:300]), script_of(int(ln)))
+    consumed = t["distinct"] - 1
+    if t["violation"]:
+        inv = [l for l in t["out"].splitlines() if "is violated" in l][:1]
+        ctx.violation("handover:contradicting-headers" if "NoContradiction" in "".join(inv) else "handover:invariant",
+                      "a state reached by the real nodes violates %s (trace line %d)" % (inv, consumed + 1), script_of(min(consumed + 1, len(lines))))
+    elif consumed < len(lines):
+        e = evs[consumed]
+        ctx.violation("handover:trace-rejected:" + e["ev"], "the real nodes took a step Handover.tla does not allow: line %d %s" % (consumed + 1, json.dumps(e)[:400]), script_of(consumed + 1))
+    ops = {}
+    for e in evs:
+        ops[e["ev"]] = ops.get(e["ev"], 0) + 1
+    results = {}
+    two = 0
+    cur = set()
+    for e in evs:
+        if e["ev"] == "reset":
+            two += len(cur) == 2; cur = set()
+        if e["ev"] == "enable":
+            results[e["res"]] = results.get(e["res"], 0) + 1
+        if e["ev"] == "forge" and e.get("forged") == 1:
+            cur.add(e["n"])
+    two += len(cur) == 2
+    log("[c15] handover: scripts=%d events=%d ops=%s enable results=%s scripts generating on both nodes=%d" % (len(scripts), len(evs), ops, results, two))
+    if only is None and not ctx.violations and (two < 20 or results.get("ok", 0) < 50 or len(results) < 4 or ops.get("restart", 0) < 10):
+        raise Inconclusive("hand-over scripts did not exercise enough (both-node generations %d, enable results %s): vacuous" % (two, results))
+    stats.update(handover_scripts=len(scripts), handover_events_validated=len(evs), handover_ops=ops, handover_enable_results=results,
+                 handover_scripts_generating_on_both_nodes=two)
+    return stats
+
+
 def report(ctx, res):
     for v in res.get("violations") or []:
         ctx.violation(v["key"], v["what"], v.get("replay"))
@@ -143,6 +244,9 @@ def run(ctx):
             res, _ = c06.run_cert(ctx, lambda k: k.startswith("own-aggregate-rejected"))
             finish(ctx, LEVEL, dict(traces_validated_against_impl=res["states"], samples=[str(d)[:300]]))
         binp = ctx.go_build("./cmd/c15")
+        if d.get("mode") == "handover":
+            st = handover(ctx, binp, only=dict(script=d["script"], followed=d.get("followed", False)))
+            finish(ctx, LEVEL, dict(traces_validated_against_impl=1, samples=[str(d)[:300]], **st))
         if d.get("mode") == "select":
             cf = ctx.path("replay_cases.ndjson"); open(cf, "w").write(json.dumps(d["case"]) + "\n")
             res = select_replay(ctx, binp, cf, "replay")
@@ -207,6 +311,8 @@ def run(ctx):
     # node's own verification, or the node rejects its own block
     from props import c06
     cres, _ = c06.run_cert(ctx, lambda k: k.startswith("own-aggregate-rejected"), replay_ok=False)
+    # moving the validator to another node (the operator interface of pkg/engine/endpoint): spec/Handover.tla
+    ho = handover(ctx)
     if (tot("forges") < 500 or tot("forges_through_unmodified_forge") < 200 or tot("crash_forges") < 20 or tot("switches_to_shorter_chain") < 50
             or tot("forges_below_largest_height_ever") < 20 or tot("generated_blocks_with_transactions") < 100
             or tot("generated_blocks_with_aggregate_commit") < 2 or tot("header_pairs_checked_for_contradiction") < 300
@@ -230,7 +336,7 @@ def run(ctx):
         transactions_included=tot("transactions_included"), generated_blocks_with_aggregate_commit=tot("generated_blocks_with_aggregate_commit"),
         aggregate_commits_of_signer_subset=tot("aggregate_commits_of_signer_subset"),
         header_pairs_checked_for_contradiction=tot("header_pairs_checked_for_contradiction"), generator_info_reads_compared=tot("generator_info_reads_compared"),
-        directed_scenarios=r1["directed_scenarios"],
+        directed_scenarios=r1["directed_scenarios"], **ho,
         rule="(a) every enumerated / drawn pool x limit: payload of the real selectTransactionsByFee must be one of the admissible payloads of Select; "
              "(b) every printed script replayed on the real Generator + Executer: header (height, maxHeightPrevoted, maxHeightGenerated) equal to the "
              "specification, all headers handed on by one generator pairwise non-contradicting under the real AreDistinctHeadersContradicting and under "
